@@ -146,6 +146,14 @@ namespace fastscapelib
         /**
          * Returns the total number of basins.
          */
+        /**
+         * Returns the algorithm used to compute the reduced tree of basins.
+         */
+        inline mst_method basin_method() const
+        {
+            return m_mst_method;
+        }
+
         inline size_type basins_count() const
         {
             return m_flow_graph_impl.outlets().size();
